@@ -646,8 +646,10 @@ class ApplicationEntity:
                 "before associating with a peer"
             )
 
-        # Set using a copy of the original to play nicely
-        contexts = deepcopy(contexts)
+        # Set using a copy of the original to play nicely, each item gets its
+        #   own copy so an item that's been included more than once still ends
+        #   up with a unique context ID
+        contexts = [deepcopy(cx) for cx in contexts]
 
         # Add the context IDs
         for ii, context in enumerate(contexts):
